@@ -466,17 +466,17 @@ LISTS2 = {'encr': [['aes128'], ['aes256'], ['aes128', 'aes256'], ['aes256', 'aes
 
 
 def e2e_cases(quick):
-    def sides(keys, extra=None):
+    def sides(keys, extra=None, level='ike'):
         out = []
-        for combo in itertools.product(*[LISTS2[k] for k in keys]):
+        for combo in itertools.product(*[(LISTS2[k] if (k, level) != ('dh', 'child') else [[]] + LISTS2[k]) for k in keys]):
             d = dict(zip(keys, combo))
             d.update(extra or {})
             out.append(d)
         return out
     cases = []
     for level, keys in (('ike', ('encr', 'dh')), ('child', ('encr', 'dh'))):
-        for a in sides(keys):
-            for b in sides(keys):
+        for a in sides(keys, level=level):
+            for b in sides(keys, level=level):
                 cases.append(dict(level=level, proto='esp', a=a, b=b))
     if not quick:
         for a in sides(('integ', 'prf')):
@@ -497,13 +497,25 @@ def case_confs(case):
     return S.base_confs(a_over=a_ike, b_over=b_ike, a_entry=a_ent, b_entry=b_ent), (a_ike, b_ike, a_ent, b_ent)
 
 
-def judge_exchange(msgs, exch, local, name):
-    """A's requests / B's responses of one exchange type against the reference.
+def by_type(transforms):
+    out = {}
+    for t in transforms:
+        out.setdefault(t[0], []).append(t)
+    return out
+
+
+def judge_exchange(msgs, exch, local, name, req_side='A', res_side='B', offer=None):
+    """the requests of one side / the responses of the other of one exchange type against the reference.
+    offer: the requester's own policy - what it offers is that policy, in its order of preference, every time
     -> (outcome, suite, ke_rounds, [(clause, class, effect, text)])"""
-    reqs = [v for s, v in msgs if v and v['exch'] == exch and not v['resp'] and s == 'A']
-    ress = [v for s, v in msgs if v and v['exch'] == exch and v['resp'] and s == 'B']
+    reqs = [v for s, v in msgs if v and v['exch'] == exch and not v['resp'] and s == req_side]
+    ress = [v for s, v in msgs if v and v['exch'] == exch and v['resp'] and s == res_side]
     bad, rounds = [], 0
     for i, req in enumerate(reqs):
+        if offer is not None and req['sa'] is not None:
+            if len(req['sa']) != 1 or req['sa'][0][1] != offer[0] or by_type(req['sa'][0][3]) != by_type(offer[1]):
+                bad.append((name + '.request', 'offer', 'offer-is-not-the-policy',
+                            '%s offers %s, its policy is %s' % (req_side, [show(p[3]) for p in req['sa']], show(offer[1]))))
         exp = R.select(local, req['sa'] or [])
         if i >= len(ress):
             bad.append((name + '.reply', 'any', 'no-reply', 'request %d has no reply' % i))
@@ -604,9 +616,9 @@ def final_state(w, ike_suite, child_suites, when):
                    '%s after %s: CHILD_SA proposals %s, reference %s' % (
                        name, when, [show(k) for k in got_kids], [show(sorted(s)) for s in child_suites]))
             continue
-        if len(newsa) != 2 * len(child_suites):
+        if len(ep.kernel.sad) != 2 * len(child_suites):
             yield ('final.newsa', 'ref=%d' % len(child_suites), 'count',
-                   '%s after %s: %d NEWSA for %d CHILD_SAs' % (name, when, len(newsa), len(child_suites)))
+                   '%s after %s: %d SAs in the kernel for %d CHILD_SAs' % (name, when, len(ep.kernel.sad), len(child_suites)))
         for c, suite in zip(kids, child_suites):
             for spi in (bytes(c.inbound_spi), bytes(c.outbound_spi)):
                 algs = [a for s, a in newsa if s == spi]
@@ -614,6 +626,59 @@ def final_state(w, ike_suite, child_suites, when):
                     yield ('final.newsa', 'ref=chosen', 'algorithms-differ',
                            '%s: NEWSA for SPI %s carries %r, negotiated %s needs %r' % (
                                name, spi.hex(), algs, show(sorted(suite)), expected_algs(suite)))
+
+
+def history_phases(tap, case, proto, pols, ike_suite, kids, hist):
+    """the same pair of daemons goes on: A rekeys its newest CHILD_SA twice, B creates a CHILD_SA, B rekeys the IKE_SA, A
+    creates one more CHILD_SA under the new IKE_SA.  Every negotiation is judged against the *configured* policies:
+    nothing an earlier negotiation did (an INVALID_KE_PAYLOAD retry, a suite chosen before) may change what is offered or
+    chosen later."""
+    a_ike, b_ike, a_ent, b_ent = pols
+    bad = []
+    kids = kids       # mutated in place
+    ike = [ike_suite]
+
+    def est(name):
+        ep = tap.w.endpoints[name]
+        c = [(i, s) for i, s in enumerate(ep.controller.ike_sas) if s.state == State.ESTABLISHED]
+        return c[-1] if c else (None, None)
+
+    def child_neg(label, who, ev, rekey):
+        req_side, res_side = who, ('B' if who == 'A' else 'A')
+        mine, theirs = (a_ent, b_ent) if who == 'A' else (b_ent, a_ent)
+        msgs = tap.run(ev)
+        out, s, rounds, b = judge_exchange(msgs, 36, child_policy(theirs, proto), label, req_side, res_side,
+                                           offer=child_policy(mine, proto))
+        hist.append((label, out, rounds))
+        if out == 'chosen' and R.drawn_from(child_policy(mine, proto)[1], s):
+            if rekey:
+                kids[-1] = s
+            else:
+                kids.append(s)
+        return b + list(final_state(tap.w, ike[0], kids, label))
+
+    for n in (1, 2):
+        i, sa = est('A')
+        if sa is None or not sa.child_sas or bad:
+            return bad
+        bad += child_neg('REKEY%d' % n, 'A', ('expire', 'A', bytes(sa.child_sas[-1].inbound_spi), False), True)
+    if bad:
+        return bad
+    bad += child_neg('CCSA-by-B', 'B', ('acquire', 'B', 0, 0), False)
+    i, sa = est('B')
+    if bad or sa is None:
+        return bad
+    msgs = tap.run(('due', 'B', i, 'rekey_ike'))
+    out, s, rounds, b = judge_exchange(msgs, 36, ike_policy(a_ike), 'IKE-REKEY-by-B', 'B', 'A', offer=ike_policy(b_ike))
+    hist.append(('IKE-REKEY-by-B', out, rounds))
+    bad += b
+    if out == 'chosen':
+        ike[0] = s
+    bad += list(final_state(tap.w, ike[0], kids, 'IKE-REKEY-by-B'))
+    if bad:
+        return bad
+    bad += child_neg('CCSA-after-rekey', 'A', ('acquire', 'A', 0, 0), False)
+    return bad
 
 
 def e2e_case(case):
@@ -640,10 +705,18 @@ def e2e_case(case):
         out_c, s, rounds_c, b = judge_exchange(msgs2, 36, child_policy(b_ent, proto), 'CCSA')
         bad += b
         if out_c == 'chosen':
-            kids.append(s)
+            if R.drawn_from(child_policy(a_ent, proto)[1], s):
+                kids.append(s)
+            else:
+                # the responder's policy has no transform of a type the initiator offered (PFS on one side only): its
+                # answer is not drawn from the offer, the initiator refuses it and has the responder delete its half
+                out_c = 'refused-by-initiator'
         bad += list(final_state(tap.w, ike_suite, kids, 'CREATE_CHILD_SA'))
+    hist = []
+    if out_i == 'chosen' and not bad and kids:
+        bad += history_phases(tap, case, proto, (a_ike, b_ike, a_ent, b_ent), ike_suite, kids, hist)
     outcome = (out_i, ike_suite and tuple(sorted(ike_suite)), rounds_i, out_a, out_c, rounds_c,
-               tuple(tuple(sorted(k)) for k in kids))
+               tuple(tuple(sorted(k)) for k in kids), tuple(hist))
     # non-trivial: a refusal, an INVALID_KE round, or a choice that the initiator's order would have made differently
     peer_pref = lambda pol, offer: (R.wrong_answers(pol, [(1, pol[0], b'', offer[1])])[0] or (0, None))
     nontrivial = bool(rounds_i or rounds_c or 'refused' in (out_i, out_a, out_c))
